@@ -29,12 +29,56 @@ def run(ctx):
     r6(ctx)
     ctx.rule("C13.R7", "K4/K3", "blocking-mode typestate of a connection's socket: non-blocking while the poller owns it, put back into blocking mode every time it is handed to a pool thread")
     blocking_mode(ctx, "C13.R7")
+    graceful_waits_for_all(ctx, "C13.R3")
     # keep-alive admission relies on the worker's force_close(): nothing else may lower or raise Response.must_close
     from .c02 import must_close_writers
     must_close_writers(ctx, "C13.R5")
     ctx.rule("C13.R8", "K4", "(= C05.R5) the accept callback survives a client that aborts before accept(): ECONNABORTED / EAGAIN / EWOULDBLOCK are swallowed (an exception there ends run(), the worker stops serving)")
     from .c05 import accept_errors
     accept_errors(ctx, "C13.R8")
+
+
+def graceful_waits_for_all(ctx, rid):
+    """at shutdown the threaded worker waits for *every* request it has handed to the pool, also those still queued behind busy
+    threads (they will run: `shutdown(False)` does not cancel them).  ThreadWorker.run evaluated with the serving loop over
+    (`alive` false) and two futures outstanding, one running and one queued: the first `futures.wait` of every path is given
+    both."""
+    repo = ctx.repo
+    from ..absint import Explorer, Inst, UNKNOWN
+    f = ctx.fn(repo.func("gunicorn.workers.gthread.ThreadWorker.run"))
+    g = f.cfg
+    fr = Inst("concurrent.futures.Future", running=lambda: True, done=lambda: False, cancelled=lambda: False, _str="F-running")
+    fq = Inst("concurrent.futures.Future", running=lambda: False, done=lambda: False, cancelled=lambda: False, _str="F-queued")
+
+    def first_arg(ex, c, env):
+        if not c.args:
+            return UNKNOWN
+        v = ex.ev(c.args[0], env)
+        if isinstance(v, (tuple, list, set, frozenset)):
+            v = tuple(sorted(str(x) for x in v))
+            if any(v_ == v for q_, v_ in env.get(Explorer.TRACE, ())):
+                return Explorer.SKIP        # (a polling loop must converge)
+            return v
+        return UNKNOWN
+    tr = {}
+    for c in ast.walk(f.node):
+        if isinstance(c, ast.Call):
+            q = repo.call_target(f.module, f, c) or ""
+            if q.endswith("futures.wait"):
+                tr[q] = first_arg
+    ctx.need(tr, rid + ": ThreadWorker.run never waits for its futures")
+    outs = Explorer(f, call_trace=tr, tracked=["self.futures"], max_states=60000).run(g.entry, {"self.alive": False, "self.futures": (fr, fq)})
+    firsts = set()
+    for o in outs:
+        w = [v for q, v in o.env.get(Explorer.TRACE, ()) if q in tr]
+        if w:
+            firsts.add(w[0])
+    ctx.need(firsts, rid + ": no path of ThreadWorker.run reaches futures.wait with the serving loop over")
+    bad_ = sorted(str(x) for x in firsts if not (isinstance(x, tuple) and {"F-running", "F-queued"} <= set(x)))
+    ctx.check(rid, not bad_, key(f, "graceful-wait-covers-queued-requests"), site(f),
+              "with a request running and another one queued in the pool when the worker stops, the graceful wait of ThreadWorker.run is given %s: a request that is still queued is not waited for -- "
+              "run() returns when the running ones are done, the heartbeat stops, and the queued request (which still starts: shutdown(False) cancels nothing) is cut by the arbiter" % bad_,
+              "futures.wait(all outstanding futures)")
 
 
 def blocking_mode(ctx, rid):
